@@ -70,6 +70,22 @@ func coSource(src string) any {
 	case "float32":
 		f, _ := strconv.ParseFloat(val, 32)
 		return float32(f)
+	case "float32s":
+		out := []float32{}
+		for _, x := range strings.Split(val, ",") {
+			f, _ := strconv.ParseFloat(x, 32)
+			out = append(out, float32(f))
+		}
+		return out
+	case "uint8":
+		n, _ := strconv.Atoi(val)
+		return uint8(n)
+	case "uint":
+		n, _ := strconv.Atoi(val)
+		return uint(n)
+	case "int8":
+		n, _ := strconv.Atoi(val)
+		return int8(n)
 	case "time":
 		return coT0
 	case "ints":
